@@ -309,6 +309,8 @@ package bloomsearch
 //@ func (*BloomSearchEngine).flushBufferedData
 //@ props C05 C07
 //@ requires b != nil && doneChans != nil && bufferedRowCount != nil && bufferedBytes != nil && bufferStartTime != nil
+//@ requires arr(*doneChans) >= $alloc
+//@ ensures arr(*doneChans) >= $alloc
 //@ modifies heaps, ghost.flushTriggers, $answers
 //@ loop 0 invariant forall key str :: $visited[key] ==> has(partitionBuffersCopy, key) && partitionBuffersCopy[key] == partitionBuffers[key]
 //@ loop 0 invariant ghost.flushTriggers == old(ghost.flushTriggers) && len(*doneChans) == old(len(*doneChans)) && *doneChans == old(*doneChans)
@@ -341,15 +343,23 @@ package bloomsearch
 //@ at call sendOptionalWithContext[error]#3 assert [C06] *bufferedRowCount == old(*bufferedRowCount) && *bufferedBytes == old(*bufferedBytes) && forall key str :: has(partitionBuffers, key) == old(has(partitionBuffers, key))
 //@ requires b != nil && doneChans != nil && bufferedRowCount != nil && bufferedBytes != nil && bufferStartTime != nil
 //@ requires [C05] ctx == b.flushCtx
+//@ requires arr(*doneChans) >= $alloc      // the pending list is existing memory, not something this call allocates
+//@ ensures arr(*doneChans) >= $alloc
+// C07 acceptance order: a retained waiter goes to the END of the pending list
+// (the flush worker answers the list in order), for Flush requests and batches
+// alike, and the waiters already pending keep their positions.
+//@ at call (*BloomSearchEngine).flushBufferedData#1 assert [C07] len(*doneChans) == old(len(*doneChans)) + 1 && (*doneChans)[len(*doneChans) - 1] == req.doneChan && forall k :: 0 <= k && k < old(len(*doneChans)) ==> (*doneChans)[k] == old((*doneChans)[k])
+//@ at call (*BloomSearchEngine).flushBufferedData#2 assert [C07] len(*doneChans) == old(len(*doneChans)) + 1 && (*doneChans)[len(*doneChans) - 1] == req.doneChan && forall k :: 0 <= k && k < old(len(*doneChans)) ==> (*doneChans)[k] == old((*doneChans)[k])
+//@ ensures [C07] len(*doneChans) == old(len(*doneChans)) + 1 ==> (*doneChans)[len(*doneChans) - 1] == old(req.doneChan) && forall k :: 0 <= k && k < old(len(*doneChans)) ==> (*doneChans)[k] == old((*doneChans)[k])
 //@ modifies heaps, ghost.flushTriggers, ghost.writes, $answers
 //@ let direct0 = ghost.attempts - ghost.roundAttempts
-//@ loop 1 invariant ghost.attempts == old(ghost.attempts) && ghost.roundAttempts == old(ghost.roundAttempts) && ghost.flushTriggers == old(ghost.flushTriggers) && len(*doneChans) == old(len(*doneChans)) && forall c :: sentnil(c) == old(sentnil(c))
-//@ loop 2 invariant ghost.attempts == old(ghost.attempts) && ghost.roundAttempts == old(ghost.roundAttempts) && ghost.flushTriggers == old(ghost.flushTriggers) && len(*doneChans) == old(len(*doneChans)) && forall c :: sentnil(c) == old(sentnil(c))
-//@ loop 3 invariant ghost.attempts == old(ghost.attempts) && ghost.roundAttempts == old(ghost.roundAttempts) && ghost.flushTriggers == old(ghost.flushTriggers) && len(*doneChans) == old(len(*doneChans)) && forall c :: sentnil(c) == old(sentnil(c))
-//@ loop 4 invariant ghost.attempts == old(ghost.attempts) && ghost.roundAttempts == old(ghost.roundAttempts) && ghost.flushTriggers == old(ghost.flushTriggers) && len(*doneChans) == old(len(*doneChans)) && forall c :: sentnil(c) == old(sentnil(c))
-//@ loop 5 invariant ghost.attempts == old(ghost.attempts) && ghost.roundAttempts == old(ghost.roundAttempts) && ghost.flushTriggers == old(ghost.flushTriggers) && len(*doneChans) == old(len(*doneChans)) && forall c :: sentnil(c) == old(sentnil(c))
-//@ loop 6 invariant ghost.attempts == old(ghost.attempts) && ghost.roundAttempts == old(ghost.roundAttempts) && ghost.flushTriggers == old(ghost.flushTriggers) && len(*doneChans) == old(len(*doneChans)) && forall c :: sentnil(c) == old(sentnil(c))
-//@ loop 7 invariant ghost.attempts == old(ghost.attempts) && ghost.roundAttempts == old(ghost.roundAttempts) && ghost.flushTriggers == old(ghost.flushTriggers) && len(*doneChans) == old(len(*doneChans)) && forall c :: sentnil(c) == old(sentnil(c))
+//@ loop 1 invariant ghost.attempts == old(ghost.attempts) && ghost.roundAttempts == old(ghost.roundAttempts) && ghost.flushTriggers == old(ghost.flushTriggers) && *doneChans == old(*doneChans) && (forall k :: 0 <= k && k < len(*doneChans) ==> (*doneChans)[k] == old((*doneChans)[k])) && forall c :: sentnil(c) == old(sentnil(c))
+//@ loop 2 invariant ghost.attempts == old(ghost.attempts) && ghost.roundAttempts == old(ghost.roundAttempts) && ghost.flushTriggers == old(ghost.flushTriggers) && *doneChans == old(*doneChans) && (forall k :: 0 <= k && k < len(*doneChans) ==> (*doneChans)[k] == old((*doneChans)[k])) && forall c :: sentnil(c) == old(sentnil(c))
+//@ loop 3 invariant ghost.attempts == old(ghost.attempts) && ghost.roundAttempts == old(ghost.roundAttempts) && ghost.flushTriggers == old(ghost.flushTriggers) && *doneChans == old(*doneChans) && (forall k :: 0 <= k && k < len(*doneChans) ==> (*doneChans)[k] == old((*doneChans)[k])) && forall c :: sentnil(c) == old(sentnil(c))
+//@ loop 4 invariant ghost.attempts == old(ghost.attempts) && ghost.roundAttempts == old(ghost.roundAttempts) && ghost.flushTriggers == old(ghost.flushTriggers) && *doneChans == old(*doneChans) && (forall k :: 0 <= k && k < len(*doneChans) ==> (*doneChans)[k] == old((*doneChans)[k])) && forall c :: sentnil(c) == old(sentnil(c))
+//@ loop 5 invariant ghost.attempts == old(ghost.attempts) && ghost.roundAttempts == old(ghost.roundAttempts) && ghost.flushTriggers == old(ghost.flushTriggers) && *doneChans == old(*doneChans) && (forall k :: 0 <= k && k < len(*doneChans) ==> (*doneChans)[k] == old((*doneChans)[k])) && forall c :: sentnil(c) == old(sentnil(c))
+//@ loop 6 invariant ghost.attempts == old(ghost.attempts) && ghost.roundAttempts == old(ghost.roundAttempts) && ghost.flushTriggers == old(ghost.flushTriggers) && *doneChans == old(*doneChans) && (forall k :: 0 <= k && k < len(*doneChans) ==> (*doneChans)[k] == old((*doneChans)[k])) && forall c :: sentnil(c) == old(sentnil(c))
+//@ loop 7 invariant ghost.attempts == old(ghost.attempts) && ghost.roundAttempts == old(ghost.roundAttempts) && ghost.flushTriggers == old(ghost.flushTriggers) && *doneChans == old(*doneChans) && (forall k :: 0 <= k && k < len(*doneChans) ==> (*doneChans)[k] == old((*doneChans)[k])) && forall c :: sentnil(c) == old(sentnil(c))
 //@ ensures [C05] (ghost.attempts - ghost.roundAttempts == direct0 + 1 && ghost.flushTriggers == old(ghost.flushTriggers) && len(*doneChans) == old(len(*doneChans)))
 //@           || (ghost.attempts - ghost.roundAttempts == direct0 && ghost.flushTriggers == old(ghost.flushTriggers) && len(*doneChans) == old(len(*doneChans)) + 1)
 //@           || (ghost.attempts - ghost.roundAttempts == direct0 && ghost.flushTriggers == old(ghost.flushTriggers) + 1 && len(*doneChans) == 0)
@@ -362,6 +372,26 @@ package bloomsearch
 //@ props C05
 //@ requires b != nil
 //@ modifies all
+//@ loop 0 invariant arr(doneChans) >= $alloc
+//@ loop 1 invariant arr(doneChans) >= $alloc
+
+// Stop: the deadline abort is armed (context.AfterFunc(ctx, flushCancel)) before
+// Stop can block on the state lock — callers blocked on a full ingest buffer hold
+// the read lock, so arming it later would let a wedged pipeline pin Stop past
+// its deadline; stopped is set under the write lock before the engine context is
+// canceled; a nil result comes only from the workers-finished case.
+//@ ghostvar afterFuncs int    // context.AfterFunc registrations
+//@ extern context.AfterFunc
+//@ modifies ghost.afterFuncs
+//@ ensures ghost.afterFuncs == old(ghost.afterFuncs) + 1
+//@ func (*BloomSearchEngine).Stop
+//@ props C08
+//@ requires b != nil
+//@ modifies heaps, ghost.afterFuncs, ghost.rwLocks, ghost.rwUnlocks, ghost.recvs, ghost.sends, ghost.nilsends
+//@ at call (*sync.RWMutex).Lock#1 assert [C08] ghost.afterFuncs == old(ghost.afterFuncs) + 1
+//@ at call dynamic#1 assert [C08] b.stopped && ghost.rwLocks == old(ghost.rwLocks) + 1 && ghost.rwUnlocks == old(ghost.rwUnlocks) + 1
+//@ ensures [C08] ghost.afterFuncs == old(ghost.afterFuncs) + 1 && ghost.rwLocks == old(ghost.rwLocks) + 1 && ghost.rwUnlocks == old(ghost.rwUnlocks) + 1
+//@ ensures [C08] result != nil ==> ghost.recvs[doneChan(ctx)] > old(ghost.recvs[doneChan(ctx)])
 
 // IngestRows / Flush: refused once stopped; accepted iff the request was sent on
 // ingestChan, and the send happens while the read lock is held; the lock is
@@ -384,6 +414,151 @@ package bloomsearch
 //@ ensures [C08] old(b.stopped) ==> result == ErrEngineStopped && sent(b.ingestChan) == old(sent(b.ingestChan))
 //@ ensures [C05] sent(b.ingestChan) == old(sent(b.ingestChan)) || sent(b.ingestChan) == old(sent(b.ingestChan)) + 1
 //@ ensures [C05] ghost.rwRLocks == old(ghost.rwRLocks) + 1 && ghost.rwRUnlocks == old(ghost.rwRUnlocks) + 1
+
+// ---------------------------------------------------------------------------
+// query_results.go — the Results cursor (C20), slots (C22), stats (C23)
+// ---------------------------------------------------------------------------
+
+//@ ghostvar statsRecorded int     // calls of recordBlockStats
+//@ ghostvar statsSkipped int      // ... with BloomFilterSkipped set
+//@ ghostvar statsNonZeroSkipped int   // ... skipped entries reporting rows or bytes processed (must stay 0)
+//@ ghostvar errsRecorded int      // calls of recordQueryError
+//@ ghostvar delivers int          // calls of Results.deliver
+//@ ghostvar cancels int           // calls through a context.CancelFunc field are not tracked; placeholder
+
+//@ extern (*atomic.Int64).Add
+//@ pure
+//@ extern (*atomic.Int64).Load
+//@ pure
+
+// Terminal state decided once: finish sets iterDone/finalized, clears the
+// iteration state, and writes err only if no terminal state existed.
+//@ func (*Results).finish
+//@ props C20
+//@ requires r != nil
+//@ modifies *r, ghost.mutexLocks, ghost.mutexUnlocks
+//@ ensures r.iterDone && r.finalized && r.current == nil && r.pending == nil && r.pendingIdx == 0
+//@ ensures old(r.finalized) ==> r.err == old(r.err)
+//@ ensures !old(r.finalized) ==> r.err == err
+//@ ensures ghost.mutexLocks - old(ghost.mutexLocks) == ghost.mutexUnlocks - old(ghost.mutexUnlocks)
+//@ ensures r.errs == old(r.errs) && r.blockStats == old(r.blockStats) && r.rowChan == old(r.rowChan) && r.done == old(r.done) && r.callerCtx == old(r.callerCtx) && r.ctx == old(r.ctx)
+
+//@ func (*Results).joinedErrs
+//@ props C20
+//@ requires r != nil
+//@ modifies ghost.mutexLocks, ghost.mutexUnlocks
+//@ ensures ghost.mutexLocks - old(ghost.mutexLocks) == ghost.mutexUnlocks - old(ghost.mutexUnlocks)
+
+// terminate (Next observed cancellation or Close): never returns true, always
+// reaches a terminal state, keeps an already-decided one, and reports the
+// caller's cancellation when there is one.
+//@ func (*Results).terminate
+//@ props C20
+//@ requires r != nil
+//@ modifies *r, ghost.mutexLocks, ghost.mutexUnlocks, ghost.recvs
+//@ ensures !result && r.iterDone && r.finalized
+//@ ensures old(r.finalized) ==> r.err == old(r.err)
+//@ ensures !old(r.finalized) && old(ghost.recvs[doneChan(r.callerCtx)]) > 0 ==> r.err != nil
+
+// Next: once iteration is done it returns false and changes nothing; a false
+// return always leaves a terminal state; a decided terminal state is never
+// overwritten.
+//@ func (*Results).Next
+//@ props C20
+//@ requires r != nil && 0 <= r.pendingIdx
+//@ requires r.iterDone ==> r.finalized      // cursor invariant: iteration only ends through finish
+//@ modifies *r, ghost.mutexLocks, ghost.mutexUnlocks, ghost.recvs
+//@ ensures old(r.iterDone) ==> !result && *r == old(*r)
+//@ ensures !result ==> r.iterDone && r.finalized
+//@ ensures old(r.finalized) ==> r.err == old(r.err)
+//@ ensures result ==> !r.iterDone
+
+// The body of Close's once.Do: it never overwrites a decided terminal state.
+//@ func (*Results).Close$1
+//@ props C20
+//@ requires r != nil
+//@ modifies *r, ghost.mutexLocks, ghost.mutexUnlocks, ghost.recvs
+//@ ensures r.finalized
+//@ ensures old(r.finalized) ==> r.err == old(r.err)
+//@ ensures r.iterDone == old(r.iterDone)
+
+// querySlot: held <=> this slot holds exactly one semaphore token. Acquiring a
+// held slot and releasing an unheld one are no-ops.
+//@ func (*querySlot).acquire
+//@ props C22
+//@ requires s != nil
+//@ modifies s.held, ghost.sends, ghost.nilsends, ghost.recvs
+//@ ensures result == s.held
+//@ ensures old(s.held) ==> result && sent(s.sem) == old(sent(s.sem))
+//@ ensures !old(s.held) && result ==> sent(s.sem) == old(sent(s.sem)) + 1
+//@ ensures !result ==> sent(s.sem) == old(sent(s.sem))
+//@ ensures recvd(s.sem) == old(recvd(s.sem)) || s.sem == doneChan(s.ctx)
+//@ ensures chanof(s.sem, "struct{}")
+//@ ensures forall c :: c != s.sem ==> sent(c) == old(sent(c)) && sentnil(c) == old(sentnil(c))
+//@ ensures forall c :: c != doneChan(s.ctx) ==> recvd(c) == old(recvd(c))
+
+//@ func (*querySlot).release
+//@ props C22
+//@ requires s != nil
+//@ modifies s.held, ghost.recvs
+//@ ensures !s.held
+//@ ensures old(s.held) ==> recvd(s.sem) == old(recvd(s.sem)) + 1
+//@ ensures !old(s.held) ==> recvd(s.sem) == old(recvd(s.sem))
+//@ ensures chanof(s.sem, "struct{}")
+//@ ensures forall c :: c != s.sem ==> recvd(c) == old(recvd(c))
+
+// deliver never blocks on the consumer while holding a semaphore slot.
+//@ func (*Results).deliver
+//@ props C22 C02
+//@ requires r != nil && slot != nil
+//@ entry ghost.delivers = ghost.delivers + 1
+//@ modifies *slot, ghost.delivers, ghost.sends, ghost.nilsends, ghost.recvs
+//@ at select #2 assert [C22] !slot.held
+//@ ensures ghost.delivers == old(ghost.delivers) + 1
+//@ ensures [C02] result == nil ==> sent(r.rowChan) == old(sent(r.rowChan)) + 1
+//@ ensures [C02] sent(r.rowChan) <= old(sent(r.rowChan)) + 1
+
+// rowBatcher: a batch is handed to deliver exactly once and then forgotten.
+//@ func (*rowBatcher).flush
+//@ props C02
+//@ requires b != nil && b.results != nil && b.slot != nil
+//@ modifies b.batch, *b.slot, ghost.delivers, ghost.sends, ghost.nilsends, ghost.recvs
+//@ ensures b.batch == nil || old(len(b.batch)) == 0
+//@ ensures old(len(b.batch)) == 0 ==> ghost.delivers == old(ghost.delivers) && result == nil
+//@ ensures old(len(b.batch)) > 0 ==> ghost.delivers == old(ghost.delivers) + 1
+
+//@ func (*Results).recordBlockStats
+//@ props C23
+//@ requires r != nil
+//@ entry ghost.statsRecorded = ghost.statsRecorded + 1
+//@ entry ghost.statsSkipped = stats.BloomFilterSkipped ? ghost.statsSkipped + 1 : ghost.statsSkipped
+//@ entry ghost.statsNonZeroSkipped = stats.BloomFilterSkipped && (stats.RowsProcessed != 0 || stats.BytesProcessed != 0) ? ghost.statsNonZeroSkipped + 1 : ghost.statsNonZeroSkipped
+//@ modifies r.blockStats, heap(BlockStats), ghost.statsRecorded, ghost.statsSkipped, ghost.statsNonZeroSkipped, ghost.mutexLocks, ghost.mutexUnlocks
+//@ ensures ghost.statsRecorded == old(ghost.statsRecorded) + 1
+//@ ensures len(r.blockStats) == old(len(r.blockStats)) + 1
+//@ ensures ghost.statsSkipped == old(ghost.statsSkipped) + (stats.BloomFilterSkipped ? 1 : 0)
+//@ ensures ghost.statsNonZeroSkipped == old(ghost.statsNonZeroSkipped) + (stats.BloomFilterSkipped && (stats.RowsProcessed != 0 || stats.BytesProcessed != 0) ? 1 : 0)
+
+// recordUnreadBlocks: one entry per block, none of them a "skipped" entry.
+//@ func recordUnreadBlocks
+//@ props C23
+//@ requires r != nil
+//@ modifies heap(Results), heap(BlockStats), ghost.statsRecorded, ghost.statsSkipped, ghost.statsNonZeroSkipped, ghost.mutexLocks, ghost.mutexUnlocks
+//@ loop 0 invariant -1 <= $index && $index < len(blocks) && ghost.statsRecorded == old(ghost.statsRecorded) + $index + 1 && ghost.statsSkipped == old(ghost.statsSkipped) && ghost.statsNonZeroSkipped == old(ghost.statsNonZeroSkipped)
+//@ ensures ghost.statsRecorded == old(ghost.statsRecorded) + len(blocks)
+//@ ensures ghost.statsSkipped == old(ghost.statsSkipped) && ghost.statsNonZeroSkipped == old(ghost.statsNonZeroSkipped)
+
+// Stats: every recorded block is counted exactly once as skipped or processed,
+// and the returned slice is a copy of the recorded entries.
+//@ func (*Results).Stats
+//@ props C23
+//@ requires r != nil
+//@ modifies ghost.mutexLocks, ghost.mutexUnlocks
+//@ loop 0 invariant -1 <= $index && $index < len(r.blockStats) && stats.BlocksSkipped + stats.BlocksProcessed == $index + 1 && stats.BlocksSkipped >= 0 && stats.BlocksProcessed >= 0
+//@ loop 0 invariant len(stats.BlockStats) == len(r.blockStats) && (len(r.blockStats) == 0 || arr(stats.BlockStats) != arr(r.blockStats))
+//@ ensures result.BlocksSkipped + result.BlocksProcessed == len(r.blockStats)
+//@ ensures len(result.BlockStats) == len(r.blockStats)
+//@ ensures len(r.blockStats) > 0 ==> arr(result.BlockStats) != arr(r.blockStats)
 
 // ---------------------------------------------------------------------------
 // merge.go — commit protocol (C13)
